@@ -4,6 +4,7 @@ loops of `pseudo_toroidal_cover` — every candidate table is a valid table of t
 -/
 import DSymVerif.Proofs.Delaney3dTables
 import DSymVerif.Proofs.FundGroupLetters
+import DSymVerif.Proofs.LowIndexFuel
 
 namespace DSymVerif.D3
 open DSymVerif DSymVerif.Cosets DSymVerif.SpecC11 DSymVerif.SpecC13 DSymVerif.CosetP DSymVerif.StabP
@@ -17,7 +18,7 @@ structure GroupOK (fg : FG.FundGroup) : Prop where
   cones : ∀ c ∈ fg.cones, ∀ x ∈ c.1, x ∈ allGensOf fg.genToEdge.length
   /-- the node budget of the model of `coset_tables` exhausts the search tree -/
   fuel : (BT.dfs (btProblem fg.genToEdge.length (expandedRelatorSet fg.relators) Tables.candidateIndexBound)
-      (LowIndexP.height Tables.candidateIndexBound) (.ok (Table.new fg.genToEdge.length))).length ≤ nodeFuel
+      (LowIndexP.height Tables.candidateIndexBound) (.ok (Table.new fg.genToEdge.length))).length ≤ nodeFuel fg.genToEdge.length Tables.candidateIndexBound
 
 
 /-- the only assumption left for a presentation returned by `fundamental_group`: the node budget
@@ -25,7 +26,11 @@ structure GroupOK (fg : FG.FundGroup) : Prop where
     hypothesis of C12's theorems -/
 def FuelOK (fg : FG.FundGroup) : Prop :=
   (BT.dfs (btProblem fg.genToEdge.length (expandedRelatorSet fg.relators) Tables.candidateIndexBound)
-      (LowIndexP.height Tables.candidateIndexBound) (.ok (Table.new fg.genToEdge.length))).length ≤ nodeFuel
+      (LowIndexP.height Tables.candidateIndexBound) (.ok (Table.new fg.genToEdge.length))).length ≤ nodeFuel fg.genToEdge.length Tables.candidateIndexBound
+
+/-- the budget `nodeFuel = searchFuel` of the model always suffices (C12 `cosetTables_fuel_adequate`) -/
+theorem fuelOK (fg : FG.FundGroup) : FuelOK fg :=
+  CanonP.cosetTables_fuel_adequate fg.genToEdge.length fg.relators Tables.candidateIndexBound
 
 /-- relators and cone words of a value returned by the model of `fundamental_group` are words
     over its generators (C09 `fundamentalGroup_letters`) -/
@@ -208,7 +213,7 @@ theorem constructCandidates_valid (fg : FG.FundGroup) (hg : GroupOK fg) (cands :
   split at h
   · rename_i cts hcts
     have hcore := coreTables_spec _ cts
-      (lowIndex_valid fg.genToEdge.length fg.relators Tables.candidateIndexBound nodeFuel hg.letters hg.fuel) hcts
+      (lowIndex_valid fg.genToEdge.length fg.relators Tables.candidateIndexBound (nodeFuel fg.genToEdge.length Tables.candidateIndexBound) hg.letters hg.fuel) hcts
     have hvalid : ∀ t ∈ cts, validTable t fg.genToEdge.length fg.relators [] = true :=
       fun t ht => isCoreOf_valid hg.letters (hcore t ht)
     split at h
@@ -226,9 +231,9 @@ theorem constructCandidates_valid (fg : FG.FundGroup) (hg : GroupOK fg) (cands :
 /-- the core tables of the run (for the statements about `core_type`) -/
 theorem constructCandidates_cores (fg : FG.FundGroup) (hg : GroupOK fg) (cts : List Tab)
     (h : coreTables fg.genToEdge.length
-      (cosetTables fg.genToEdge.length fg.relators Tables.candidateIndexBound nodeFuel) = .ok cts) :
+      (cosetTables fg.genToEdge.length fg.relators Tables.candidateIndexBound (nodeFuel fg.genToEdge.length Tables.candidateIndexBound)) = .ok cts) :
     ∀ c ∈ cts, IsCoreOf fg.genToEdge.length fg.relators Tables.candidateIndexBound c :=
   coreTables_spec _ cts
-    (lowIndex_valid fg.genToEdge.length fg.relators Tables.candidateIndexBound nodeFuel hg.letters hg.fuel) h
+    (lowIndex_valid fg.genToEdge.length fg.relators Tables.candidateIndexBound (nodeFuel fg.genToEdge.length Tables.candidateIndexBound) hg.letters hg.fuel) h
 
 end DSymVerif.D3
